@@ -405,6 +405,8 @@ def origins(n, env, adapters=ADAPTERS, extra=None, depth=0, seen=None, sel=(), a
                             else:
                                 out.add(o)
                         return out
+                    if f.get("k") == "path" and f.get("res", {}).get("dk") == "Ctor":
+                        return recv_o
                     if f.get("k") == "path" and "def" in f.get("res", {}):
                         fd = f["res"]["def"]
                         if accessors is not None and accessors.search(fd):
@@ -854,3 +856,244 @@ def relation(cmp_node, env, role_a, role_b, accessors=None, extra=None):
     if role_a(ro) and role_b(lo):
         return SWAP[c["op"]]
     return None
+
+
+# =====================================================================================================
+# tiny abstract evaluation of Option/bool expressions under presence assumptions
+# =====================================================================================================
+NONE = ("none",)
+UNKNOWN = ("unknown",)
+ERR = ("err",)          # evaluation leaves the function through an error (`ok_or(..)?`, `return Err`)
+
+
+def _some(v=UNKNOWN):
+    return ("some", v)
+
+
+def abs_eval(n, env, assume, binds=None, accessors=None):
+    """Abstractly evaluate expression n.  `assume`: list of (predicate(origin_set)->bool, value) giving NONE / ("some", v)
+    for expressions whose origins satisfy the predicate.  Returns True/False, NONE, ("some", v), ERR or UNKNOWN."""
+    binds = binds or {}
+    n0 = n
+    n = strip(n)
+    if not isinstance(n, dict):
+        return UNKNOWN
+    k = n.get("k")
+    t = try_inner(n)
+    if t is not None:
+        v = abs_eval(t, env, assume, binds, accessors)
+        if v == ("reserr",) or v == ERR:
+            return ERR
+        if isinstance(v, tuple) and v and v[0] == "resok":
+            return v[1]
+        return UNKNOWN
+    if k == "lit":
+        lits = literals(n)
+        return lits[0] if lits and isinstance(lits[0], bool) else UNKNOWN
+    if k in ("path", "field"):
+        if k == "path" and "local" in n.get("res", {}) and n["res"]["id"] in binds:
+            return binds[n["res"]["id"]]
+        if k == "path" and variant_name(n.get("res", {})) == "None" and n.get("res", {}).get("dk") in ("Ctor", "Variant"):
+            return NONE
+        oo = origins(n, env, accessors=accessors)
+        for pred, val in assume:
+            if pred(oo):
+                return val
+        # local bound to an evaluable initialiser
+        if k == "path" and "local" in n.get("res", {}):
+            ds = env.defs.get(n["res"]["id"], [])
+            if len(ds) == 1 and not ds[0][1] and isinstance(ds[0][0], dict) and ds[0][0].get("k") != "closure_param":
+                return abs_eval(ds[0][0], env, assume, binds, accessors)
+        return UNKNOWN
+    if k == "unary" and n.get("op") == "Not":
+        v = abs_eval(n["e"], env, assume, binds, accessors)
+        return (not v) if isinstance(v, bool) else (ERR if v == ERR else UNKNOWN)
+    if k == "binary":
+        op = n["op"]
+        a = abs_eval(n["l"], env, assume, binds, accessors)
+        if op == "And":
+            if a is False:
+                return False
+            b = abs_eval(n["r"], env, assume, binds, accessors)
+            if a is True:
+                return b
+            return False if b is False else UNKNOWN
+        if op == "Or":
+            if a is True:
+                return True
+            b = abs_eval(n["r"], env, assume, binds, accessors)
+            if a is False:
+                return b
+            return True if b is True else UNKNOWN
+        b = abs_eval(n["r"], env, assume, binds, accessors)
+        if op in ("Eq", "Ne"):
+            def is_none(x):
+                return x == NONE
+            def is_some(x):
+                return isinstance(x, tuple) and x and x[0] == "some"
+            if (is_none(a) and is_some(b)) or (is_some(a) and is_none(b)):
+                return op == "Ne"
+            if is_none(a) and is_none(b):
+                return op == "Eq"
+        return UNKNOWN
+    if k == "call" and n.get("ctor"):
+        vn = variant_name(n["ctor"])
+        if vn == "Some":
+            return _some(abs_eval(n["args"][0], env, assume, binds, accessors) if n["args"] else UNKNOWN)
+        if vn == "Ok":
+            return ("resok", abs_eval(n["args"][0], env, assume, binds, accessors) if n["args"] else UNKNOWN)
+        if vn == "Err":
+            return ("reserr",)
+        return UNKNOWN
+    if k == "mcall":
+        name = n["name"]
+        base = n.get("fn") or ""
+        if not re.match(r"^core::(option::Option|result::Result)::", base) and not (base.startswith("bool::") or "impl bool" in base):
+            # accessor treated as field
+            if accessors is not None and accessors.search(base):
+                oo = origins(n, env, accessors=accessors)
+                for pred, val in assume:
+                    if pred(oo):
+                        return val
+            return UNKNOWN
+        r = abs_eval(n["recv"], env, assume, binds, accessors)
+        args = n["args"]
+
+        def closure_val(arg, param_val):
+            c = strip(arg)
+            if c.get("k") == "closure":
+                b2 = dict(binds)
+                for p in c.get("params", []):
+                    for nm, bid, path in pat_bindings(p):
+                        b2[bid] = param_val if not path else UNKNOWN
+                return abs_eval(c["body"], env, assume, b2, accessors)
+            return UNKNOWN
+        is_some = isinstance(r, tuple) and r and r[0] == "some"
+        if base.startswith("core::option::Option::"):
+            if name in ("as_ref", "as_deref", "as_mut", "cloned", "copied", "take"):
+                return r
+            if name == "is_some":
+                return True if is_some else (False if r == NONE else UNKNOWN)
+            if name == "is_none":
+                return False if is_some else (True if r == NONE else UNKNOWN)
+            if name in ("map", "and_then"):
+                if r == NONE:
+                    return NONE
+                if is_some:
+                    v = closure_val(args[0], r[1])
+                    if name == "and_then":
+                        return v
+                    return ERR if v == ERR else _some(v)
+                return UNKNOWN
+            if name == "filter":
+                if r == NONE:
+                    return NONE
+                if is_some:
+                    v = closure_val(args[0], r[1])
+                    return r if v is True else (NONE if v is False else UNKNOWN)
+                return UNKNOWN
+            if name in ("unwrap_or", "map_or"):
+                d = abs_eval(args[0], env, assume, binds, accessors)
+                if r == NONE:
+                    return d
+                if is_some:
+                    return closure_val(args[1], r[1]) if name == "map_or" else r[1]
+                return UNKNOWN
+            if name == "unwrap_or_default":
+                return False if r == NONE else (r[1] if is_some else UNKNOWN)
+            if name in ("ok_or", "ok_or_else"):
+                if r == NONE:
+                    return ("reserr",)
+                if is_some:
+                    return ("resok", r[1])
+                return UNKNOWN
+            if name in ("unwrap", "expect"):
+                return r[1] if is_some else UNKNOWN
+            return UNKNOWN
+        if base.startswith("core::result::Result::"):
+            if name in ("map_err", "as_ref"):
+                return r
+            if name == "is_ok":
+                return True if (isinstance(r, tuple) and r[0] == "resok") else (False if r == ("reserr",) else UNKNOWN)
+            if name == "is_err":
+                return False if (isinstance(r, tuple) and r[0] == "resok") else (True if r == ("reserr",) else UNKNOWN)
+            if name == "ok":
+                return _some(r[1]) if (isinstance(r, tuple) and r[0] == "resok") else (NONE if r == ("reserr",) else UNKNOWN)
+            return UNKNOWN
+        if name in ("then_some", "then"):
+            if r is True:
+                return _some()
+            if r is False:
+                return NONE
+            return UNKNOWN
+        return UNKNOWN
+    if k == "letexpr":
+        v = abs_eval(n["init"], env, assume, binds, accessors)
+        ps = pat_str(n["pat"])
+        if ps.startswith("Some("):
+            return True if (isinstance(v, tuple) and v and v[0] == "some") else (False if v == NONE else UNKNOWN)
+        if ps == "None":
+            return True if v == NONE else (False if (isinstance(v, tuple) and v and v[0] == "some") else UNKNOWN)
+        return UNKNOWN
+    if k == "block" and not n.get("stmts") and n.get("expr") is not None:
+        return abs_eval(n["expr"], env, assume, binds, accessors)
+    return UNKNOWN
+
+
+def abs_exec_block(block, env, assume, binds=None, accessors=None):
+    """Abstractly execute a block's statement sequence: returns 'err' if an error exit is certainly taken
+    (a diverging `if` whose condition evaluates to True and whose branch returns Err, or a `?` on an Err), 'pass' if all
+    guards certainly do not fire, else 'unknown'."""
+    binds = dict(binds or {})
+    unknown = False
+    stmts = list(block.get("stmts", []))
+    if block.get("expr") is not None:
+        stmts.append(block["expr"])
+    for s in stmts:
+        s2 = s["e"] if s.get("k") == "semi" else s
+        k = s2.get("k")
+        if k == "let":
+            if s2.get("init") is not None:
+                v = abs_eval(s2["init"], env, assume, binds, accessors)
+                if v == ERR:
+                    return "err"
+                bs = pat_bindings(s2["pat"])
+                if len(bs) == 1 and not bs[0][2]:
+                    binds[bs[0][1]] = v
+            continue
+        if k == "if":
+            c = abs_eval(s2["cond"], env, assume, binds, accessors)
+            if c == ERR:
+                return "err"
+            if c is True:
+                if diverges(s2["then"]):
+                    oc = outcome(s2["then"])
+                    return "err" if oc.startswith("Err(") else "exit"
+                # bind `if let Some(x) = e`
+                b2 = dict(binds)
+                cc = strip(s2["cond"])
+                if cc.get("k") == "letexpr":
+                    v = abs_eval(cc["init"], env, assume, binds, accessors)
+                    for nm, bid, path in pat_bindings(cc["pat"]):
+                        b2[bid] = v[1] if (isinstance(v, tuple) and v[0] == "some" and path == ("Some", "0")) else UNKNOWN
+                r = abs_exec_block(s2["then"], env, assume, b2, accessors)
+                if r in ("err", "exit"):
+                    return r
+                if r == "unknown":
+                    unknown = True
+            elif c is False:
+                if s2.get("else") is not None:
+                    r = abs_exec_block(s2["else"], env, assume, binds, accessors) if s2["else"].get("k") == "block" else "unknown"
+                    if r in ("err", "exit"):
+                        return r
+                    if r == "unknown":
+                        unknown = True
+            else:
+                unknown = True
+            continue
+        if k in ("ret",):
+            return "err" if outcome(s2).startswith("Err(") else "exit"
+        v = abs_eval(s2, env, assume, binds, accessors)
+        if v == ERR:
+            return "err"
+    return "unknown" if unknown else "pass"
